@@ -20,6 +20,7 @@
 //  allocator calls and faults go to Registry::side instead and are printed as final lines.
 #pragma once
 #include "vstd.hpp"
+#include "vpay.hpp"
 #include <new>
 #include <initializer_list>
 
@@ -174,8 +175,10 @@ struct VAlloc {
 };
 
 // thrown by Elem's constructors (the "user code" of the list) on a negative payload
-struct ElemThrow: std::exception {
-    const char* what() const noexcept override { return "elem-ctor"; }
+// not a std::exception (like vs::VThrow, which the runner catches): element constructors may throw any type, and
+// clean-up code that filters with catch (const std::exception&) instead of catch (...) (seeded C13-10) must show
+struct ElemThrow: vs::VThrow {
+    const char* what() const noexcept { return "elem-ctor"; }
 };
 struct Elem {
     long v;
